@@ -169,6 +169,10 @@ func InEngine() bool { return false }
 // below 2^53 (range-checked on every operation), so float64 is encoded as int64. Call it first.
 func ExactIntFloats() {}
 
+// AssumeHashInjective states the assumption that wyhash is collision-free on the values in play:
+// from then on the engine treats it as an injective uninterpreted function.
+func AssumeHashInjective() {}
+
 func MustCover(fn ...string)     {}
 func Bound(name string, n int)   {}
 func SelectAll(on bool)          {}
